@@ -235,6 +235,26 @@ func dropSel(tree []Sel, path []int) []Sel {
 	return out
 }
 
+func selAt(tree []Sel, path []int) Sel {
+	s := tree[path[0]]
+	if len(path) == 1 {
+		return s
+	}
+	return selAt(s.Sub, path[1:])
+}
+
+func withParts(tree []Sel, path []int, parts []string) []Sel {
+	out := append([]Sel{}, tree...)
+	s := out[path[0]]
+	if len(path) == 1 {
+		s.Parts = parts
+	} else {
+		s.Sub = withParts(s.Sub, path[1:], parts)
+	}
+	out[path[0]] = s
+	return out
+}
+
 func selPaths(tree []Sel, prefix []int, out *[][]int) {
 	for i, s := range tree {
 		p := append(append([]int{}, prefix...), i)
@@ -277,6 +297,26 @@ func (pa *parent) shrink(c Case, res CaseResult) (Case, CaseResult) {
 				if try(cand) {
 					changed = true
 					break
+				}
+			}
+		}
+		if !changed && len(c.Tree) > 0 {
+			var paths [][]int
+			selPaths(c.Tree, nil, &paths)
+		parts:
+			for _, pth := range paths {
+				sel := selAt(c.Tree, pth)
+				for pi := range sel.Parts {
+					if len(sel.Parts) < 2 {
+						break
+					}
+					cand := c
+					cand.Tree = withParts(c.Tree, pth, append(append([]string{}, sel.Parts[:pi]...), sel.Parts[pi+1:]...))
+					cand.Query = render(cand.Op, cand.Tree)
+					if try(cand) {
+						changed = true
+						break parts
+					}
 				}
 			}
 		}
@@ -434,6 +474,26 @@ func main() {
 	}
 	run.CountN("family:exhaustive-3-siblings", nEx)
 	run.Note("exhaustive family: %d of %d cases (modes^3 x release orders; stride %d selected by the seed)", nEx, len(ex), stride)
+	// connection matrix (exhaustive) and random connection family
+	cm := connMatrix(procs)
+	for _, c := range cm {
+		if pa.enough() {
+			break
+		}
+		c := c
+		pa.record(c, pa.exec(&c), true)
+	}
+	run.CountN("family:connection-matrix", len(cm))
+	run.Note("connection matrix: %d cases (5 resolver kinds x page size {0,1,3} x 11 selections of edges/totalCount/pageInfo incl. aliased doubles x {sync, Go post, Go pre, Batch})", len(cm))
+	nConn := run.Scale(500, 10000)
+	for i := 0; i < nConn && !pa.enough(); i++ {
+		c := connCase(rnd.Fork())
+		pa.record(c, pa.exec(&c), true)
+		if i < 1 {
+			run.Sample(c)
+		}
+	}
+	run.CountN("family:connections", nConn)
 	// abandonment family
 	nAb := run.Scale(1200, 20000)
 	for i := 0; i < nAb && !pa.enough(); i++ {
